@@ -89,6 +89,7 @@ STD_ENUMS = {
     "std::cmp::Ordering": {-1: "Less", 255: "Less", 0: "Equal", 1: "Greater"},
     "core::cmp::Ordering": {-1: "Less", 255: "Less", 0: "Equal", 1: "Greater"},
     "std::collections::hash_map::Entry": {0: "Occupied", 1: "Vacant"},
+    "camino::Utf8Component": {0: "Prefix", 1: "RootDir", 2: "CurDir", 3: "ParentDir", 4: "Normal"},
 }
 
 
